@@ -227,12 +227,14 @@ namespace bxdecay0 {
 
   void decay0_generator::reset()
   {
-    if (is_debug()) {
+    const bool debug = is_debug();
+    if (debug) {
       std::cerr << "[debug] decay0_generator::reset: Entering..." << std::endl;
     }
     _initialized_ = false;
     _reset_();
-    if (is_debug()) {
+    _debug_ = false;
+    if (debug) {
       std::cerr << "[debug] decay0_generator::reset: Exiting." << std::endl;
     }
     return;
